@@ -59,7 +59,8 @@ def twin_stage(name, cases_fn, prop="C08"):
 
 
 def stages(tier, rng, only=None):
-    out = [ac.stage("grid3x2", PID, lambda: ac.cases(grids.datasets(3, 2), BIO, SCHEMES,
+    out = [ac.stage("grid3x2", PID, lambda: ac.cases(grids.datasets(3, 2), BIO + ["Bio[BioCo]", "Bio{Copeland}",
+                                                                                   "BioValues[Borda]"], SCHEMES,
                                                      namings=["ints", "letters", "weird", "neg"]), _nt,
                     extra_aux={"biofull": 1}),
            twin_stage("moves3x2", lambda: _search_cases(grids.datasets(3, 2), SCHEMES)),
